@@ -3,6 +3,7 @@ package main
 import (
 	"fmt"
 	"go/token"
+	"go/types"
 	"strings"
 
 	"golang.org/x/tools/go/ssa"
@@ -281,6 +282,8 @@ func runC06(c *Ctx) {
 	r.Doc("N4", "(= D8) v2 constructor rejects a zero share for any registered priority", 1)
 	r.Doc("N5", "(= P1) with nothing in flight the first-phase allotment is the validated strategic distribution: the top-up visits every registered priority and assigns strategic-actual", 2)
 	r.Doc("N6", "the base-path candidates (uncrowded) are exactly the registered priorities with actual < strategic", 2)
+	r.Doc("N7", "the 'allotment filled' predicate answers true exactly when every listed priority has a non-zero allotment", 2)
+	r.Doc("N8", "second-phase candidates: first the priorities that used up their allotment (tactic == 0), then those with actual < hypothetical share", 4)
 	for _, p := range []*Prog{c.V1, c.V2} {
 		pr, err := resolvePrio(p)
 		if err != nil {
@@ -294,6 +297,8 @@ func runC06(c *Ctx) {
 		checkN1(c, pr)
 		checkN1b(c, pr)
 		checkN2(c, pr)
+		checkN2b(c, pr)
+		checkN78(c, pr)
 		checkN3(c, pr)
 		subp := &Ctx{V1: c.V1, V2: c.V2, Tier: c.Tier, R: NewReport("tmp", c.Tier)}
 		checkB5(subp, pr, true)
@@ -896,6 +901,178 @@ func checkN6(c *Ctx, pr *prioRoles) {
 				}
 				c.R.Check(okCond && !extra, "N6", fmt.Sprintf("%s#uncrowded.%d", p.FnKey(fn), n), p.InstrPos(in), "kept iff actual < strategic",
 					"the candidates for the base allotment are filtered by "+strings.Join(conds, " && ")+" instead of exactly actual[p] < strategic[p]: the divider may then be given a subset for which some candidate's share is zero, and the round-start wait blocks with nothing in flight")
+			}
+		}
+	}
+}
+
+// checkN2b: the round-start calculation answers "cannot proceed" on its own account only when no
+// handler is vacant (otherwise it hands on the answer of the base allotment).
+func checkN2b(c *Ctx, pr *prioRoles) {
+	p := pr.p
+	for _, cs := range p.CallSites(pr.vacantsFn) {
+		fn := cs.Parent()
+		vac := ssa.Value(cs.Value())
+		if cs.Value() != nil && cs.Value().Type().String() != "uint" {
+			for _, ref := range *cs.Value().Referrers() {
+				if ex, ok := ref.(*ssa.Extract); ok && ex.Index == 0 {
+					vac = ex
+				}
+			}
+		}
+		n := 0
+		for _, b := range fn.Blocks {
+			ret, ok := b.Instrs[len(b.Instrs)-1].(*ssa.Return)
+			if !ok || len(ret.Results) < 1 || b.Comment == "recover" {
+				continue
+			}
+			cv, isC := ret.Results[0].(*ssa.Const)
+			if !isC || constString(cv) != "false" {
+				continue
+			}
+			if len(ret.Results) == 2 && !isNilConst(ret.Results[1]) {
+				continue // error exit
+			}
+			n++
+			okZero := false
+			for _, e := range DomEdges(b) {
+				iff := e.From.Instrs[len(e.From.Instrs)-1].(*ssa.If)
+				cm := p.NormCmp(iff.Cond, e.Succ == 0)
+				if cm != nil && cm.Op == token.EQL && cm.LC == 0 && cm.RC == 0 &&
+					((cm.L.V == vac && cm.R.String() == "0") || (cm.R.V == vac && cm.L.String() == "0")) {
+					okZero = true
+				}
+			}
+			c.R.Check(okZero, "N2", fmt.Sprintf("%s#no-proceed.%d", p.FnKey(fn), n), p.InstrPos(ret), "cannot proceed only when vacants == 0", "the round-start calculation gives up although handlers may be vacant (not under vacants == 0): the scheduler then waits for a release that never comes when nothing is in flight")
+		}
+	}
+}
+
+// checkN78: shape of the filled-predicate and of the two `useful` filters.
+func checkN78(c *Ctx, pr *prioRoles) {
+	p := pr.p
+	// N7: functions whose result is returned as the proceed flag of the base / re-division functions
+	seen := map[*ssa.Function]bool{}
+	for _, fn := range pr.rt.Funcs {
+		for _, s := range p.resultSyms(fn, 0) {
+			call, ok := s.V.(*ssa.Call)
+			if !ok {
+				continue
+			}
+			cal := p.Callee(call)
+			if cal == nil || !p.IsProduct(cal) || !returnsBoolOnly(cal) || len(cal.Params) != 2 || seen[cal] {
+				continue
+			}
+			if _, isSlice := cal.Params[1].Type().Underlying().(*types.Slice); !isSlice {
+				continue
+			}
+			seen[cal] = true
+			ok7 := true
+			why := ""
+			comps := sccs(cal.Blocks, blockSet(cal.Blocks))
+			if len(comps) != 1 {
+				ok7, why = false, "not a single loop over the listed priorities"
+			}
+			trues, falses := 0, 0
+			for _, b := range cal.Blocks {
+				ret, isRet := b.Instrs[len(b.Instrs)-1].(*ssa.Return)
+				if !isRet || b.Comment == "recover" {
+					continue
+				}
+				cv, isC := ret.Results[0].(*ssa.Const)
+				if !isC {
+					ok7, why = false, "non-constant result"
+					continue
+				}
+				if constString(cv) == "true" {
+					trues++
+					if blockInLoop(b) || len(comps) == 1 && blockSet(comps[0])[b] {
+						ok7, why = false, "answers true before every listed priority was examined"
+					}
+					continue
+				}
+				falses++
+				okEdge := false
+				for _, e := range DomEdges(b) {
+					iff := e.From.Instrs[len(e.From.Instrs)-1].(*ssa.If)
+					cm := p.NormCmp(iff.Cond, e.Succ == 0)
+					if cm == nil || cm.Op != token.EQL || cm.LC != 0 || cm.RC != 0 {
+						continue
+					}
+					l, r := deepStrip(cm.L), deepStrip(cm.R)
+					if r.String() != "0" {
+						l, r = r, l
+					}
+					if r.String() == "0" && l.Op == "index" {
+						if _, path, okp := l.Args[0].FieldPath(); okp && path[len(path)-1] == "tactic" {
+							if base, okr := rangeElem(l.Args[1]); okr && base.V == ssa.Value(cal.Params[1]) {
+								okEdge = true
+							}
+						}
+					}
+				}
+				if !okEdge {
+					ok7, why = false, "answers false not under tactic[listed priority] == 0"
+				}
+			}
+			if trues != 1 || falses == 0 {
+				ok7, why = false, fmt.Sprintf("%d true / %d false results", trues, falses)
+			}
+			c.R.Check(ok7, "N7", p.FnKey(cal), p.Pos(cal.Pos()), "for-all listed priorities: tactic != 0", "the allotment-filled predicate is not 'every listed priority has a non-zero allotment' ("+why+"): the scheduler proceeds with a starved priority, or waits for a release although every candidate can be served")
+		}
+	}
+	// N8: appends to `useful`
+	n := 0
+	for _, fn := range pr.rt.Funcs {
+		for _, b := range fn.Blocks {
+			for _, in := range b.Instrs {
+				st, ok := fieldStore(in, "useful")
+				if !ok {
+					continue
+				}
+				call, isCall := st.Val.(*ssa.Call)
+				if !isCall {
+					continue
+				}
+				if bi, isB := call.Call.Value.(*ssa.Builtin); !isB || bi.Name() != "append" {
+					continue
+				}
+				n++
+				el, okv := varargsElem(call.Call.Args[1])
+				key := ""
+				if okv {
+					key = p.Sym(el).String()
+				}
+				form := ""
+				extra := false
+				for _, e := range InstrDomEdges(in) {
+					if !blockInLoop(e.From) {
+						continue
+					}
+					iff := e.From.Instrs[len(e.From.Instrs)-1].(*ssa.If)
+					cm := p.NormCmp(iff.Cond, e.Succ == 0)
+					if cm != nil && strings.Contains(cm.String(), "len(") {
+						continue
+					}
+					isIdx := func(s *Sym, field string) bool {
+						s = deepStrip(s)
+						if s.Op != "index" || s.Args[1].String() != key {
+							return false
+						}
+						_, path, okp := s.Args[0].FieldPath()
+						return okp && path[len(path)-1] == field
+					}
+					switch {
+					case cm != nil && cm.Op == token.EQL && cm.LC == 0 && cm.RC == 0 && ((isIdx(cm.L, "tactic") && cm.R.String() == "0") || (isIdx(cm.R, "tactic") && cm.L.String() == "0")):
+						form = "allotment used up (tactic == 0)"
+					case cm != nil && cm.Op == token.LSS && cm.LC == 0 && cm.RC == 0 && isIdx(cm.L, "actual") && isIdx(cm.R, "tactic"):
+						form = "actual < hypothetical share"
+					default:
+						extra = true
+					}
+				}
+				c.R.Check(form != "" && !extra, "N8", fmt.Sprintf("%s#useful.%d", p.FnKey(fn), n), p.InstrPos(in), form,
+					"the second-phase candidates are selected by "+describeEdges(p, InstrDomEdges(in))+", not by 'used up its allotment' / 'actual < hypothetical share': the unspent handlers go to priorities without data, or a lone active priority is left out")
 			}
 		}
 	}
